@@ -1,5 +1,5 @@
 (* C09 — parsing ignores case, separator choice and the order of unordered parts. *)
-From UL Require Import Bytes Subtags LangId Ext Grammar LangIdSpec LocaleSpec AbstractLocale SortProofs SplitProofs LangIdProofs CanonProofs KvProofs FoldProofs RoundTrip LocaleSpecProofs OrderProofs.
+From UL Require Import Bytes Subtags LangId Ext Grammar LangIdSpec LocaleSpec AbstractLocale SortProofs SplitProofs LangIdProofs CanonProofs KvProofs FoldProofs RoundTrip LocaleSpecProofs OrderProofs StringLevel LocaleGrammar LocaleGrammarProofs GrammarOrder.
 From Coq Require Import Permutation String.
 
 (* any two byte strings that agree after case folding and '_' -> '-' give the same result: both fail
@@ -108,6 +108,40 @@ Theorem C09_variants_all_langid : forall s s' l sc rg V V',
   langid_from_bytes s = langid_from_bytes s'.
 Proof. exact langid_variants_order. Qed.
 
+(* ---- the same on the relational grammar of C03 (spec/LocaleGrammar.v): the VALUE a well-formed identifier
+   denotes is insensitive to the order of keywords / tfields with distinct keys, to the order and repetition
+   of attributes and variants, and to which of -u- / -t- comes first; and two well-formed spellings of one
+   value - in any letter case, with any mixture of '-' and '_' - parse to the same result ---- *)
+Theorem C09_grammar_u : forall attrs attrs' kws kws',
+  forallb attr_tok attrs = true -> forallb ukeyword_ok kws = true -> NoDup (group_keys kws) ->
+  forallb attr_tok attrs' = true -> (forall y, In y (map lower attrs) <-> In y (map lower attrs')) ->
+  Permutation kws kws' -> (attrs' <> [] \/ kws' <> []) ->
+  WFU (attrs' ++ flat_map group_tokens kws') (mkU (kv_sort (map norm_group kws)) (dedup (sort (map lower attrs)))).
+Proof. exact WFU_reorder. Qed.
+Theorem C09_grammar_t : forall tl v fields fields',
+  WFLangIdT tl v -> forallb tfield_ok fields = true -> NoDup (group_keys fields) -> Permutation fields fields' ->
+  WFT (tl ++ flat_map group_tokens fields') (mkT (Some v) (kv_sort (map norm_group fields))).
+Proof. exact WFT_reorder_lang. Qed.
+Theorem C09_grammar_t_fields : forall fields fields',
+  forallb tfield_ok fields = true -> NoDup (group_keys fields) -> Permutation fields fields' -> fields <> [] ->
+  WFT (flat_map group_tokens fields') (mkT None (kv_sort (map norm_group fields))).
+Proof. exact WFT_reorder_fields. Qed.
+Theorem C09_grammar_ut : forall su ub u st tb t,
+  single_is 117 su = true -> WFU ub u -> single_is 116 st = true -> WFT tb t ->
+  WFUT (su :: ub ++ st :: tb) u t /\ WFUT (st :: tb ++ su :: ub) u t.
+Proof. exact WFUT_swap. Qed.
+Theorem C09_grammar_variants : forall l sc rg vs vs',
+  lang_tok l = true -> match sc with Some t => script_tok t = true | None => True end ->
+  match rg with Some t => region_tok t = true | None => True end ->
+  forallb variant_tok vs = true -> forallb variant_tok vs' = true ->
+  (forall y, In y (map lower vs) <-> In y (map lower vs')) ->
+  exists v, WFLangIdT (l :: opt_tok sc ++ opt_tok rg ++ vs) v /\ WFLangIdT (l :: opt_tok sc ++ opt_tok rg ++ vs') v.
+Proof. exact WFLangIdT_variants. Qed.
+Theorem C09_same_value_same_parse : forall toks toks' seps seps' v,
+  WFLocale toks v -> WFLocale toks' v -> forallb is_sep seps = true -> forallb is_sep seps' = true ->
+  locale_from_bytes (weave toks seps) = locale_from_bytes (weave toks' seps').
+Proof. exact same_value_same_parse. Qed.
+
 (* non-vacuity: the hypotheses are met by ordinary identifiers, and the conclusion is then about Ok values *)
 Example C09_order_witness :
   let s  := bs "en-US-u-attr-ca-buddhist-nu-latn-t-de-h0-hybrid-m0-ungegn-x-foo"%string in
@@ -120,6 +154,12 @@ Example C09_order_witness :
   /\ ukey_tok (bs "ca") = true /\ forallb utype_tok [bs "buddhist"] = true /\ tkey_tok (bs "h0") = true.
 Proof. vm_compute. repeat split; eauto. Qed.
 
+Print Assumptions C09_grammar_u.
+Print Assumptions C09_grammar_t.
+Print Assumptions C09_grammar_t_fields.
+Print Assumptions C09_grammar_ut.
+Print Assumptions C09_grammar_variants.
+Print Assumptions C09_same_value_same_parse.
 Print Assumptions C09_ut_order_all.
 Print Assumptions C09_ut_order_extmap.
 Print Assumptions C09_keywords_order_all.
